@@ -69,9 +69,9 @@ PROPS = {
                       "A1 A2 B2 B1 (race_witness; the defect was repaired, fix 2bbaa7c). Validation: all interleavings of 2 calls and all one-waiter "
                       "interleavings of 3 calls are executed on the real LoggerHandle by parking threads at the hook point between the two steps.",
         "level_note": "Trusted: RwLock semantics; thread parking via the cfg-guarded hook points 'spec.enter' (before the lock is asked for) and 'spec.updated' (inside); 'blocked' is observed with a 60 ms timeout. "
-                      "push/pop run through the same set_new_spec path (their stack part is per handle clone, C05).",
-        "correspondence": "Spec.CState (lock model) vs real threads parked inside WritersHandle::set_new_spec",
-        "rule": "enumeration of interleavings (start_i before finish_i) of 2 and 3 calls with specs of different maximum levels, plus calls parked before the lock while another runs from start to end with coinciding maximum levels; non-trivial = all cases (quiescence oracle evaluated)",
+                      "push/pop are modelled as a layer over the lock protocol (Model/Spec PState: a push READS the active specification under the read lock, so it waits for a change in progress, saves it on the stack of its handle clone and is then an ordinary change; a pop is an ordinary change to the specification saved last). Props/C12Push: every run of that layer is a run of the lock protocol (prun_projects), hence the consistency theorem holds for every interleaving of set/push/pop calls (push_pop_consistent), and the specification active in the end is the initial one or one named by a set or push (push_pop_from_submitted). Schedules with a waiting writer AND a waiting reader at the same release are not generated (which of them the RwLock serves first is not specified).",
+        "correspondence": "Spec.CState/PState (lock model, push/pop layer) vs real threads parked inside WritersHandle::set_new_spec, incl. push_temp_spec/pop_temp_spec on kept handle clones",
+        "rule": "enumeration of interleavings (start_i before finish_i) of 2 and 3 calls with specs of different maximum levels, plus calls parked before the lock while another runs from start to end with coinciding maximum levels; plus 30 (thorough: 300 per seed) push/pop histories on handle clones (push arriving during a change, change arriving during a push, two clones popping in either order); plus free-running races; non-trivial = all cases (quiescence oracle evaluated)",
         "trusted": SPEC_TRUST,
         "shards": 2,
     },
@@ -153,7 +153,7 @@ PROPS = {
         "level_note": "PARTIAL for async: trigger_rotation is not ordered with queued records in async mode (not in the random stream; see DESIGN) and raw chunks equal to the "
                       "in-band control messages b\"F\"/b\"S\" are swallowed (known finding). Async is validated, the capacity-independence is proved.",
         "correspondence": "one Flw model run vs the real writer in 4 write modes",
-        "rule": "size criteria x namings x modes {direct, buf:1/7/64/8192, bufflush, async pool/msg small}; non-trivial = rotation happened",
+        "rule": "size criteria x namings x modes {direct, buf:1/7/64/8192, bufflush, async pool/msg small}; flush calls inside the histories in every mode (async: unobserved, a message in the channel between the records); non-trivial = rotation happened",
         "trusted": ["crossbeam channel FIFO"],
     },
     "C04": {
@@ -196,11 +196,11 @@ PROPS = {
                       "directories pre-populated with arbitrary near-miss names — every call under catch_unwind, a later record must still be accepted; recursive logging "
                       "from Display in a child process under a watchdog.",
         "level_note": "PARTIAL: a theorem cannot show the absence of panics in unmodelled code (std, chrono, regex, OS); that part is exploration. Five panics found and "
-                      "repaired (fix commits 9620a31, 0f937be, 9c1a91c, 6ba14c4, index overflow); one hang repaired, too (fix 54ef5cd: recursion + buffered stdout). "
+                      "repaired (fix commits 9620a31, 0f937be, 9c1a91c, 6ba14c4, index overflow); one hang repaired, too (fix 54ef5cd: recursion + buffered stdout); a sixth panic found in the fourth seeded round and repaired (fix 6e6ba35: the log directory vanishes while the logger runs). "
                       "Out of the random domain (documented): suffix 'gz', exhausted index space (>= 2^32-1).",
         "correspondence": "Spec.route/enabledQuery/parse vs the real logger on nasty inputs; robustness histories: only 'the call returns' is predicted",
         "rule": "half records/spec strings (22 nasty targets incl. 5000-char and 100 KB messages, arbitrary Unicode spec strings), half file-name configurations x "
-                "directory contents (24 nasty name fragments) x histories with rotations and restarts; 32 recursion runs (nesting depth 1, 2, 3, 5; file, stdout and stderr, direct, buffered and async); non-trivial = all executed cases",
+                "directory contents (24 nasty name fragments) x histories with rotations and restarts, in a quarter of which the log directory itself vanishes for a while (RMDIR … MKDIR); 32 recursion runs (nesting depth 1, 2, 3, 5; file, stdout and stderr, direct, buffered and async); non-trivial = all executed cases",
         "trusted": ["catch_unwind observes every panic of the calling thread", "watchdog 4 s + 8 s re-run for hang detection"],
         "shards": 8,
     },
@@ -215,8 +215,8 @@ PROPS = {
                       "rename/remove + reopen_output and reset_flw to other families, direct and buffered.",
         "level_note": "Rotation + external rename is proved in the order-free form (the reading order of moved files is not chronological then), for every naming scheme. "
                       "Asynchronous mode is outside the property.",
-        "correspondence": "Flw model (extRename/extRemove/reopen/reset, archived families) vs FileLogWriter::reopen_outputfile/reset on real files renamed/removed by the harness",
-        "rule": "histories with EXTREN/EXTRM+REOPEN and RESET to another discriminant x no rotation / all four namings x caps incl. tails below the capacity; "
+        "correspondence": "Flw model (extRename/extRemove/reopen/reset, archived families) vs FileLogWriter::reopen_outputfile/reset and LoggerHandle::reopen_output/trigger_rotation (log_to_file and log_to_file_and_writer) on real files renamed/removed by the harness",
+        "rule": "histories with EXTREN/EXTRM+REOPEN and RESET to another discriminant x no rotation / all four namings x caps incl. tails below the capacity; plus 120 (thorough: 2000 per seed) histories through a real Logger (file only / file and a second writer); "
                 "non-trivial = rotation happened or a reopen/reset was executed",
         "trusted": ["OS: an open descriptor follows a renamed file; bytes written to an unlinked file are gone"],
     },
@@ -273,10 +273,13 @@ PROPS = {
                       "is touched; the premise is C07's reachable_ifxDistinct; without it the statement is false - example exDup); how a history reaches such a pass and what "
                       "the restarted logger does with an original next to an unfinished .gz is covered by the kill runs + correspondence (the model's crashDir includes those "
                       "points; cleanup-backlog histories kill the pass between two compressions). Trusted: data handed to write(2) survives process death; rename is atomic; abort() at a hook point = kill "
-                      "at that point. Kills at arbitrary instants (between hook points inside one syscall) are not distinguishable from the adjacent points.",
-        "correspondence": "FlwTrace.crashDir/stepT vs child processes killed at hook points, then restart on the same directory",
+                      "at that point. Kills at ARBITRARY instants are exercised as well (family k: the child announces a burst of 20..120 writes, the parent sends SIGKILL a random number of microseconds later): "
+                      "the directory found afterwards must be EQUAL to one the model passes through during the write in flight - before it, at one of its recorded points, or after it (driver op KOBS over "
+                      "FlwTrace.stepT); the model continues from the matching directory, a new logger is started and compared as usual; creation times travel by inode, a file that the dead process had not yet "
+                      "registered was created by the operation in flight. That every real kill state is a modelled crash state is an observation (60 kills per quick run), not a theorem.",
+        "correspondence": "FlwTrace.crashDir/stepT vs child processes killed at hook points and by SIGKILL at arbitrary instants, then restart on the same directory",
         "rule": "6 histories (quick) x {victim write, forced rotation} x 17 points x occurrences 0..2 (cleanup/compress points) x restart append on/off; direct mode, all namings, "
-                "cleanup never/(1,1)/random; non-trivial = all (each case kills or proves the point unreachable)",
+                "cleanup never/(1,1)/random; plus 60 (thorough: 1500 per seed) SIGKILLs at arbitrary instants during bursts of same-second writes; non-trivial = all (each case kills or proves the point unreachable)",
         "trusted": ["OS: written data survives process death; rename atomic", "hook points (add-only) mark the gaps between file-system effects"],
         "shards": 8,
     },
@@ -304,7 +307,7 @@ PROPS = {
         "level_note": "Three defects repaired (763ea2b bare file name, c5fbd22 start time recomputed, bcb4371 listing before first write). The start-time part is pinned "
                       "(suppress_timestamp) in the differential histories; custom timestamp formats: 3 year-first formats; the order lemmas carry the hypothesis 'year-first format' (stamps_order_dayfirst_violation_witness shows the full statement false for a day-first format).",
         "correspondence": "Names.render/existingLogFiles/tryFromName + Flw model (names, symlink) vs the real writer and FileSpec",
-        "rule": "all name-part combinations incl. empty basename, dotted/underscore names, names containing '_r' x namings x selectors x histories with rotation, cleanup, compression, restarts; "
+        "rule": "all name-part combinations incl. empty basename, dotted/underscore names, names containing '_r' x namings x selectors (incl. rCURRENT and a custom current file side by side) x histories with rotation, cleanup, compression, restarts; "
                 "10 try_from paths incl. sub-directories; non-trivial = all",
         "trusted": ["std::path::Path::file_stem/extension (modelled as splitExt, validated)"],
     },
